@@ -107,6 +107,61 @@ def _is_generator(node):
     return False
 
 
+_MATERIALISED = {}
+
+
+def _materialised(f):
+    """the generator function `f` as a plain function that returns the list of the values it yields (None when a yield is
+    used as an expression)"""
+    import copy as _copy
+    if f.key in _MATERIALISED:
+        return _MATERIALISED[f.key]
+    node = _copy.deepcopy(f.node)
+    ok = [True]
+    acc = '__yielded__'
+
+    def call(method, value, at):
+        c = ast.Expr(value=ast.Call(func=ast.Attribute(value=ast.Name(id=acc, ctx=ast.Load()), attr=method, ctx=ast.Load()),
+                                    args=[value], keywords=[]))
+        return ast.fix_missing_locations(ast.copy_location(c, at))
+
+    class T(ast.NodeTransformer):
+        def visit_FunctionDef(self, n):
+            if n is not node:
+                return n            # a nested function keeps its own yields
+            self.generic_visit(n)
+            return n
+
+        def visit_Lambda(self, n):
+            return n
+
+        def visit_Expr(self, n):
+            if isinstance(n.value, ast.Yield):
+                v = n.value.value if n.value.value is not None else ast.Constant(value=None)
+                return call('append', v, n)
+            if isinstance(n.value, ast.YieldFrom):
+                return call('extend', n.value.value, n)
+            return n
+
+        def visit_Return(self, n):
+            return ast.copy_location(ast.Return(value=ast.Name(id=acc, ctx=ast.Load())), n)
+    T().visit(node)
+    if any(isinstance(x, (ast.Yield, ast.YieldFrom)) for x in ast.walk(node)):
+        ok[0] = False
+    if ok[0]:
+        first = node.body[0] if node.body else node
+        init = ast.copy_location(ast.Assign(targets=[ast.Name(id=acc, ctx=ast.Store())], value=ast.List(elts=[], ctx=ast.Load())), first)
+        last = node.body[-1] if node.body else node
+        fin = ast.copy_location(ast.Return(value=ast.Name(id=acc, ctx=ast.Load())), last)
+        node.body = [init] + node.body + [fin]
+        ast.fix_missing_locations(node)
+        g = FuncInfo(f.module, f.qualname, node, cls=f.cls)
+    else:
+        g = None
+    _MATERIALISED[f.key] = g
+    return g
+
+
 class BindError(Exception):
     pass
 
@@ -544,7 +599,7 @@ class Interp(ExprMixin):
                     args.extend(nf.index(v, Poly.const(i)) for i in range(n_ret))    # f(*g(...)) with g returning an n-tuple
                     continue
                 unknown_star.append((len(args), v))
-                args.append(self.eval(a, st))       # starred(v): stays marked unless its length can be inferred below
+                args.append(app('starred', P(v)))   # starred(v): stays marked unless its length can be inferred below
                 continue
             args.append(self.eval(a, st))
         if len(unknown_star) == 1 and not any(k.arg is None for k in node.keywords) and isinstance(unknown_star[0][1], Poly):
@@ -710,6 +765,25 @@ class Interp(ExprMixin):
             return Poly.atom(('fresh', fresh_id(), 'badcall:' + f.key))
         seen_as = f.rules_view(bound)
         ev = self.log_call(st, f, seen_as, node, args=args, kwargs=kwargs)
+        if _is_generator(f.node) and f.key not in known_functions() and f.key not in self.stack and len(self.stack) <= self.max_depth:
+            # a private generator introduced later, called for its items (tuple(gen()), unpacking, chain ...): the list of
+            # what it yields, in order
+            g = _materialised(f)
+            if g is not None:
+                n_ev, heap0, n_c, n_l = len(st.events), dict(st.heap), len(st.conds), len(st.loops)
+                try:
+                    r = self.inline(g, bound, st, node)
+                except Fork:
+                    st.events.remove(ev) if ev in st.events else None
+                    raise
+                if isinstance(r, Tup) and not any(a[0] in ('loop', 'iter') for i_ in r.items for a in nf.value_atoms(i_)):
+                    ev.data['result'] = r
+                    return r
+                # what it yields depends on a loop that was not unrolled: the call stays a value of its own
+                del st.events[n_ev:]
+                del st.conds[n_c:]
+                del st.loops[n_l:]
+                st.heap = heap0
         if self.should_inline(f):
             try:
                 r = self.inline(f, bound, st, node)
@@ -743,6 +817,11 @@ class Interp(ExprMixin):
             fields = record_fields(cls)
             if fields is not None:
                 # a dataclass / NamedTuple record: the generated constructor stores its arguments under the annotated names
+                if len(args) == 1 and isinstance(args[0], Poly) and args[0].single_atom() is not None and \
+                        args[0].single_atom()[0] == 'app' and args[0].single_atom()[1] == 'starred' and not kwargs:
+                    # Record(*sequence): one item per field
+                    seq_ = args[0].single_atom()[2][0]
+                    args = [self.load_index(seq_, Poly.const(i_)) for i_ in range(len(fields))]
                 vals = dict(zip([n_ for n_, _ in fields], args))
                 if len(args) > len(fields) or any(k not in dict(fields) for k in kwargs):
                     self.note(st, 'B2', node, what=f'arguments do not fit the fields of {cls.key}', callee=cls.key)
@@ -819,8 +898,9 @@ class Interp(ExprMixin):
             return args[1] if len(args) > 1 else NONE
         # bound method stored in the heap / attribute value
         if name in ARRAY_METHODS_MUTATE:
-            self.log_write(st, 'method:' + name, recv, node, args=args)
             fn = node.func
+            if not (isinstance(fn.value, ast.Name) and fn.value.id == '__yielded__'):      # (the collector of a materialised generator)
+                self.log_write(st, 'method:' + name, recv, node, args=args)
             if isinstance(fn.value, ast.Name) and isinstance(st.env.get(fn.value.id), Tup) \
                     and st.env[fn.value.id].kind == 'list':
                 lst = st.env[fn.value.id]
@@ -1234,7 +1314,7 @@ class Interp(ExprMixin):
         des = self._desugar_generator_loop(s, st)
         if des is not None:
             return self.exec_block(des, [st])
-        it = self.eval(s.iter, st)
+        it = self.shape_items(self.eval(s.iter, st))
         if isinstance(it, Tup) and not s.orelse and ((len(it) <= 6 and self.unroll) or (
                 len(it) <= 4 and all(isinstance(i, Const) or (isinstance(i, Poly) and i.const_value() is not None) for i in it.items))
                 or (len(it) <= 12 and all(_fully_known(i) for i in it.items))):
